@@ -29,6 +29,35 @@ import (
 // root, in d/ and in d/e/), and "d"/"e" as files conflict with the directories.
 var Paths = []string{"a", "b", "d/a", "d/b", "d/e/a", "e/a", "d", "e", "c"}
 
+// WidePaths is the opt-in path universe (Spec.PathSet == 1): three levels of
+// directories with several entries each, so that a subtree can differ from its
+// variants in different entries at every level.
+var WidePaths = []string{"a", "b", "d/a", "d/b", "d/c", "d/e/a", "d/e/b", "d/e/f/a", "d/e/f/b", "e/a", "e/b", "d", "e", "c"}
+
+// PathsOf returns the path universe of a path set (0 = Paths, 1 = WidePaths; modulo 2).
+func PathsOf(set int) []string {
+	if mod(set, 2) == 1 {
+		return WidePaths
+	}
+	return Paths
+}
+
+// DirsOf returns the directories of a path set (every proper prefix of a path), sorted.
+func DirsOf(set int) []string {
+	seen := map[string]bool{}
+	var out []string
+	for _, p := range PathsOf(set) {
+		for i := 0; i < len(p); i++ {
+			if p[i] == '/' && !seen[p[:i]] {
+				seen[p[:i]] = true
+				out = append(out, p[:i])
+			}
+		}
+	}
+	sort.Strings(out)
+	return out
+}
+
 // Edit operations.
 const (
 	OpDelete  = 0
@@ -45,12 +74,23 @@ type Edit struct {
 	Blob int // blob pool index (modulo); for gitlinks: even = id of an earlier commit of this history, odd = an id that names nothing
 }
 
+// Graft replaces one directory of the tree under construction by the same
+// directory of an earlier commit's tree (a revert or cherry-pick of a directory,
+// a merge that takes a directory from the other side): the subtree object of the
+// source re-appears unchanged.
+type Graft struct {
+	Dir  int // index into DirsOf(Spec.PathSet) (modulo)
+	From int // commit index (modulo i); ignored for commit 0
+}
+
 // Commit i has parents among commits < i.
 type Commit struct {
 	Parents []int  // absolute indices, resolved modulo i, duplicates dropped; ignored for commit 0
 	Base    int    // tree to start from: -1 first parent's (empty for a root), -2 empty, k>=0 tree of commit k%i (a revert)
 	Edits   []Edit // applied to the base tree
 	Time    int    // committer (and author) time offset in seconds; arbitrary, so parents may be newer than children
+	// Grafts are applied to the base tree before the edits (opt-in; absent in specs of generators that do not use them).
+	Grafts []Graft `json:",omitempty"`
 }
 
 // Tag kinds.
@@ -72,6 +112,8 @@ type Spec struct {
 	NBlobs  int
 	Commits []Commit
 	Tags    []Tag
+	// PathSet selects the path universe of the edits: 0 = Paths, 1 = WidePaths (opt-in).
+	PathSet int `json:",omitempty"`
 }
 
 // Obj is one raw git object.
@@ -205,6 +247,7 @@ func Build(s Spec) *Built {
 	}
 	b.Blobs = b.AllBlob
 	trees := make([]map[string]fileEnt, len(s.Commits))
+	paths, dirs := PathsOf(s.PathSet), DirsOf(s.PathSet)
 	for i, c := range s.Commits {
 		var ps []int
 		if i > 0 {
@@ -229,8 +272,24 @@ func Build(s Spec) *Built {
 		for k, v := range base {
 			files[k] = v
 		}
+		for _, g := range c.Grafts {
+			if i == 0 {
+				break
+			}
+			d := dirs[mod(g.Dir, len(dirs))]
+			for k := range files {
+				if k == d || strings.HasPrefix(k, d+"/") || strings.HasPrefix(d, k+"/") {
+					delete(files, k)
+				}
+			}
+			for k, v := range trees[mod(g.From, i)] {
+				if k == d || strings.HasPrefix(k, d+"/") {
+					files[k] = v
+				}
+			}
+		}
 		for _, e := range c.Edits {
-			p := Paths[mod(e.Path, len(Paths))]
+			p := paths[mod(e.Path, len(paths))]
 			// a file replaces a directory of the same name and vice versa
 			for k := range files {
 				if strings.HasPrefix(k, p+"/") || strings.HasPrefix(p, k+"/") {
@@ -405,6 +464,13 @@ type GenOpts struct {
 	TagChains int
 	// MinTagChains is the least number of chains drawn (only with TagChains > 0).
 	MinTagChains int
+	// SubtreeRecur > 0 draws, with that probability in percent, the history from the
+	// subtree-recurrence family (GenRecur) instead: wide path universe, a focus
+	// directory whose subtree object re-appears in several commits (directory
+	// reverts, cherry-picks of a directory, merges taking a directory from the other
+	// side) between variants that differ from it in different entries. Zero keeps
+	// the draw sequence of callers that do not set it.
+	SubtreeRecur int
 }
 
 // Gen draws a history: chains, merges (incl. criss-cross and octopus), new
@@ -415,6 +481,9 @@ func Gen(t *rapid.T, o GenOpts) Spec {
 	}
 	if o.MaxEdits < 1 {
 		o.MaxEdits = 3
+	}
+	if o.SubtreeRecur > 0 && rapid.IntRange(0, 99).Draw(t, "recurk") < o.SubtreeRecur {
+		return GenRecur(t, o)
 	}
 	s := Spec{NBlobs: rapid.IntRange(1, 5).Draw(t, "nblobs")}
 	n := rapid.IntRange(1, o.MaxCommits).Draw(t, "ncommits")
@@ -501,6 +570,129 @@ func Gen(t *rapid.T, o GenOpts) Spec {
 				s.Tags = append(s.Tags, Tag{Kind: TagTag, Idx: len(s.Tags) - 1}) // Idx is taken modulo its own index: the previous tag
 			}
 		}
+	}
+	return s
+}
+
+// recurOldBlobs is the number of pool blobs the first commits of a GenRecur
+// history draw from; later edits mostly bring content of their own.
+const recurOldBlobs = 4
+
+// GenRecur draws a history of the subtree-recurrence family. Layout: an optional
+// unrelated root (commit 0), the populated root of the main line, then 3-9
+// commits: edits (mostly below a focus directory, mostly introducing content no
+// earlier commit has), restorations of a directory from an earlier commit
+// (Graft), whole-tree reverts, merges that may take a directory from the second
+// parent, forks from earlier commits. Nothing in it is more than a Spec: Build
+// decides what the objects are.
+func GenRecur(t *rapid.T, o GenOpts) Spec {
+	s := Spec{PathSet: 1}
+	if rapid.IntRange(0, 5).Draw(t, "narrowpaths") == 0 {
+		s.PathSet = 0
+	}
+	paths, dirs := PathsOf(s.PathSet), DirsOf(s.PathSet)
+	focus := rapid.IntRange(0, len(dirs)-1).Draw(t, "focusdir")
+	var below []int // paths below the focus directory
+	for i, p := range paths {
+		if strings.HasPrefix(p, dirs[focus]+"/") {
+			below = append(below, i)
+		}
+	}
+	steps := rapid.IntRange(3, 9).Draw(t, "nsteps")
+	side := rapid.IntRange(0, 1).Draw(t, "sideroot")
+	n := side + 1 + steps
+	s.NBlobs = recurOldBlobs + 2*n
+	monotone := rapid.IntRange(0, 3).Draw(t, "monotone") > 0
+	tm := func(i int) int {
+		if monotone {
+			return i
+		}
+		return rapid.IntRange(0, 30).Draw(t, "time")
+	}
+	edit := func(i, j int, inFocus bool) Edit {
+		e := Edit{Op: OpFile}
+		if inFocus && len(below) > 0 {
+			e.Path = below[rapid.IntRange(0, len(below)-1).Draw(t, "focuspath")]
+		} else {
+			e.Path = rapid.IntRange(0, len(paths)-1).Draw(t, "path")
+		}
+		switch k := rapid.IntRange(0, 9).Draw(t, "blobk"); {
+		case k < 6:
+			e.Blob = recurOldBlobs + 2*i + j%2 // content of this commit's own
+		case k < 8:
+			e.Blob = rapid.IntRange(0, recurOldBlobs-1).Draw(t, "oldblob")
+		default:
+			e.Blob = rapid.IntRange(0, s.NBlobs-1).Draw(t, "blob")
+		}
+		switch k := rapid.IntRange(0, 11).Draw(t, "opk"); {
+		case k == 9:
+			e.Op = OpDelete
+		case k == 10:
+			e.Op = OpExec
+		case k == 11:
+			e.Op = OpSymlink
+		}
+		return e
+	}
+	if side == 1 {
+		c := Commit{Base: -1, Time: tm(0)}
+		for j, ne := 0, rapid.IntRange(1, 2).Draw(t, "nedits"); j < ne; j++ {
+			c.Edits = append(c.Edits, edit(0, j, false))
+		}
+		s.Commits = append(s.Commits, c)
+	}
+	root := Commit{Base: -2, Time: tm(side)} // no parents: a root also at index 1
+	for pi, p := range paths {
+		isDir := false
+		for _, d := range dirs {
+			isDir = isDir || d == p
+		}
+		if isDir || rapid.IntRange(0, 4).Draw(t, "populate") == 0 {
+			continue
+		}
+		root.Edits = append(root.Edits, Edit{Path: pi, Op: OpFile, Blob: rapid.IntRange(0, recurOldBlobs-1).Draw(t, "oldblob")})
+	}
+	s.Commits = append(s.Commits, root)
+	tip := side // last commit of the main line
+	for i := side + 1; i < n; i++ {
+		c := Commit{Base: -1, Parents: []int{tip}, Time: tm(i)}
+		any := func(label string) int { return rapid.IntRange(side, i-1).Draw(t, label) }
+		dir := func() int {
+			if rapid.IntRange(0, 4).Draw(t, "otherdir") == 0 {
+				return rapid.IntRange(0, len(dirs)-1).Draw(t, "dir")
+			}
+			return focus
+		}
+		ne := 0
+		switch k := rapid.IntRange(0, 11).Draw(t, "stepk"); {
+		case k <= 3: // edit
+			ne = rapid.IntRange(1, 2).Draw(t, "nedits")
+		case k <= 7: // a directory as some earlier commit had it
+			c.Grafts = []Graft{{Dir: dir(), From: any("graftfrom")}}
+			ne = rapid.IntRange(0, 1).Draw(t, "nedits")
+		case k == 8: // whole-tree revert
+			c.Base = any("revert")
+			ne = rapid.IntRange(0, 1).Draw(t, "nedits")
+		case k <= 10: // merge
+			other := any("mergeparent")
+			c.Parents = append(c.Parents, other)
+			if rapid.IntRange(0, 2).Draw(t, "takedir") > 0 {
+				c.Grafts = []Graft{{Dir: dir(), From: other}}
+			}
+			ne = rapid.IntRange(0, 1).Draw(t, "nedits")
+		default: // fork
+			c.Parents = []int{any("forkparent")}
+			ne = rapid.IntRange(1, 2).Draw(t, "nedits")
+		}
+		for j := 0; j < ne; j++ {
+			c.Edits = append(c.Edits, edit(i, j, rapid.IntRange(0, 5).Draw(t, "infocus") > 0))
+		}
+		s.Commits = append(s.Commits, c)
+		tip = i
+	}
+	nt := rapid.IntRange(0, min(o.MaxTags, 2)).Draw(t, "ntags")
+	for i := 0; i < nt; i++ {
+		s.Tags = append(s.Tags, Tag{Kind: rapid.IntRange(0, 3).Draw(t, "tagk"), Idx: rapid.IntRange(0, n+2).Draw(t, "tagidx")})
 	}
 	return s
 }
